@@ -1,6 +1,7 @@
 package rules
 
 import (
+	"go/constant"
 	"fmt"
 	"go/token"
 	"go/types"
@@ -348,6 +349,84 @@ func runC06(c *core.Ctx) core.Meta {
 	stRead := c.Rule("R06.flow", "every operand read inside a lane loop reads the loop's own lane; VCC/EXEC/SCC values are used only through lane i's own bit; no value carried from another iteration reaches a lane-indexed write", 600)
 	stUni := c.Rule("R06.uniform", "writes to a scalar destination (lane constant, SetVCC, SetEXEC, SetSCC) happen outside every lane loop with a lane-mask accumulator, or in a listed documented cross-lane instruction", 60)
 	stIdx := c.Rule("R06.index", "inside a lane loop the lane index is used only to select the lane (lane argument of operand accessors and helpers, bit position of a mask, index of a per-lane array); it never enters the arithmetic that produces the value written to the lane", 230)
+	stHoist := c.Rule("R06.hoist", "a vector handler (a function with a lane loop) reads an operand outside the loop, at a fixed lane, only if the operand can never be a vector register: for every format whose dispatcher reaches the handler (FormatType dispatch of the ALU's Run resolved per format), every store to that operand field in the format's decoder (FormatType dispatch of Disassembler.Decode) stores a freshly built non-register operand (the literal K of v_madak / v_fmaak / v_fmamk). An operand filled from an operand code (getOperand) or a register constructor may be a VGPR with a different value per lane", 3)
+	decArms := formatArms(c, c.SSAFunc(instsPkg, "Disassembler.Decode"))
+	aluArms := map[string]map[string]map[*ssa.Function]bool{}
+	for _, a := range [][2]string{{emuPkg, "ALUImpl.Run"}, {cdna3Pkg, "ALU.Run"}} {
+		aluArms[a[0]] = formatArms(c, c.SSAFunc(a[0], a[1]))
+	}
+	regOperandConst := int64(-1)
+	if k, ok := c.SSAPkg(instsPkg).Pkg.Scope().Lookup("RegOperand").(*types.Const); ok {
+		regOperandConst, _ = constant.Int64Val(k.Val())
+	}
+	// hoistable: may the operand (a load of Inst.<field>) be read once for all lanes in fn?
+	hoistable := func(fn *ssa.Function, operand ssa.Value) (bool, string) {
+		ld, ok := operand.(*ssa.UnOp)
+		if !ok {
+			return false, "the operand is not a field of the instruction"
+		}
+		fa, ok := ld.X.(*ssa.FieldAddr)
+		if !ok {
+			return false, "the operand is not a field of the instruction"
+		}
+		field := fieldNameOf(fa)
+		var formats []string
+		for _, arms := range aluArms {
+			for f, set := range arms {
+				if set[fn] {
+					formats = append(formats, f)
+				}
+			}
+		}
+		sort.Strings(formats)
+		if len(formats) == 0 {
+			return false, "no format dispatcher reaches the handler"
+		}
+		for _, f := range formats {
+			stores, regs := 0, 0
+			for dfn := range decArms[f] {
+				for _, b := range dfn.Blocks {
+					for _, in := range b.Instrs {
+						st, ok := in.(*ssa.Store)
+						if !ok {
+							continue
+						}
+						sf := core.FieldOfAddr(st.Addr)
+						if sf == nil || core.ShortFieldID(sf) != "Inst."+field {
+							continue
+						}
+						stores++
+						al, isAlloc := st.Val.(*ssa.Alloc)
+						nonReg := false
+						if isAlloc {
+							if refs := al.Referrers(); refs != nil {
+								for _, r := range *refs {
+									if fa2, ok := r.(*ssa.FieldAddr); ok && fieldNameOf(fa2) == "OperandType" {
+										if r2 := fa2.Referrers(); r2 != nil {
+											for _, x := range *r2 {
+												if s2, ok := x.(*ssa.Store); ok {
+													if k, isC := core.ConstInt(s2.Val); isC && k != regOperandConst {
+														nonReg = true
+													}
+												}
+											}
+										}
+									}
+								}
+							}
+						}
+						if !nonReg {
+							regs++
+						}
+					}
+				}
+			}
+			if stores == 0 || regs > 0 {
+				return false, fmt.Sprintf("the decoder of format %s fills Inst.%s from an operand code or a register constructor in %d of %d places, so it may be a vector register", f, field, regs, stores)
+			}
+		}
+		return true, fmt.Sprintf("Inst.%s is a decoder-built constant in format(s) %s", field, strings.Join(formats, ", "))
+	}
 	stScalar := c.Rule("R06.scalar", "scalar handlers (reachable from the SOP*/SMEM dispatchers) do not read EXEC() unless the instruction is an EXEC-reading scalar instruction", 100)
 
 	excUsed := map[string]bool{}
@@ -441,7 +520,21 @@ func runC06(c *core.Ctx) core.Meta {
 					default:
 						// outside any lane loop: only a uniform read at a constant lane of a scalar/literal operand
 						if _, isC := core.ConstInt(core.StripConv(e.lane)); isC {
-							stRead.Ob(true)
+							// a handler with a lane loop may read an operand once, at a fixed lane, only if the
+							// decoder of the handler's format can never put a vector register into that operand
+							okH, why := true, ""
+							if len(loops) > 0 {
+								okH, why = hoistable(fn, core.CallOf(e.in).Args[len(core.CallOf(e.in).Args)-2])
+								stHoist.Instances++
+								stHoist.Ob(okH)
+								if okH {
+									stHoist.Sample("%s: operand read once outside the lane loop: %s", name, why)
+								}
+							}
+							stRead.Ob(okH)
+							if !okH {
+								c.ReportAt("R06.hoist", fn, e.in.Pos(), "read-hoisted:"+e.label, "an operand is read once, at lane "+prov.Of(e.lane)+", outside the lane loop of "+name+", but "+why+": every lane then computes with that lane's value (also when that lane is disabled by EXEC) instead of its own")
+							}
 						} else if p2 := ivOf(e.lane); p2 != nil && loops[p2] != nil && !loops[p2].okForm {
 							stRead.Ob(true) // judged by R06.loop
 						} else if _, isParam := core.StripConv(e.lane).(*ssa.Parameter); isParam {
